@@ -2,7 +2,15 @@ package main
 
 // C21 — chain-sync delivers the server's chain updates faithfully; pipelining bound.
 //
-//   sync <ntc|ntn> <limit> <lazy> <slow> <stopAt|-> <events>
+//   sync <ntc|ntn|ntcp> <limit> <lazy> <slow> <stopAt|s<k>|-> <events>
+//
+// ntcp = node-to-client with a block pipeline (Config.Pipeline): roll-forwards are
+// submitted to a real pipeline.BlockPipeline and reported from its ApplyFunc; the
+// apply of a block that is directly followed by a roll-backward is held back until
+// the server has sent that roll-backward (and a short grace period has passed), so
+// that a roll-backward callback that does not wait for the pipeline to drain shows
+// up as a callback out of order. s<k> (k = number of F/B events): Client.Stop() is
+// called while the last callback is still running.
 //
 // The library's real chainsync.Client (PipelineLimit = <limit>, 0..100) syncs
 // against a raw scripted server. <events> is the server's history, a string over
@@ -23,6 +31,7 @@ package main
 //     maxout: ok iff requests received − replies sent never exceeded max(effective limit,1)
 
 import (
+	"context"
 	"fmt"
 	"strconv"
 	"strings"
@@ -31,13 +40,14 @@ import (
 
 	"github.com/blinklabs-io/gouroboros/cbor"
 	"github.com/blinklabs-io/gouroboros/ledger"
+	"github.com/blinklabs-io/gouroboros/pipeline"
 	"github.com/blinklabs-io/gouroboros/protocol"
 	"github.com/blinklabs-io/gouroboros/protocol/chainsync"
 	pcommon "github.com/blinklabs-io/gouroboros/protocol/common"
 )
 
 func init() {
-	register(&Prop{ID: "C21", Gen: genC21, Run: runC21, Timeout: 30 * time.Second})
+	register(&Prop{ID: "C21", Gen: genC21, Run: runC21, Timeout: 120 * time.Second})
 }
 
 func genC21(r *Rand, n int, tier string, emit func(string)) {
@@ -92,10 +102,16 @@ func genC21(r *Rand, n int, tier string, emit func(string)) {
 			ev = "-"
 		}
 		stop := "-"
-		if nEv > 0 && r.Chance(1, 8) {
-			stop = strconv.Itoa(1 + r.Intn(nEv))
+		mode := Pick(r, "ntc", "ntn", "ntc", "ntn", "ntcp")
+		if mode != "ntcp" && nEv > 0 {
+			switch r.Intn(10) {
+			case 0:
+				stop = strconv.Itoa(1 + r.Intn(nEv))
+			case 1:
+				stop = "s" + strconv.Itoa(nEv)
+			}
 		}
-		emit(fmt.Sprintf("sync %s %d %d %d %s %s", Pick(r, "ntc", "ntn"), limit, r.Intn(2), b2i(r.Chance(1, 4)), stop, ev))
+		emit(fmt.Sprintf("sync %s %d %d %d %s %s", mode, limit, r.Intn(2), b2i(r.Chance(1, 4)), stop, ev))
 	}
 }
 
@@ -115,15 +131,23 @@ func runC21(op string) string {
 	limit, e1 := strconv.Atoi(f[2])
 	lazy := f[3] == "1"
 	slow := f[4] == "1"
-	stopAt := 0
+	stopAt, slowStopAt := 0, 0
 	if f[5] != "-" {
-		v, err := strconv.Atoi(f[5])
+		v, err := strconv.Atoi(strings.TrimPrefix(f[5], "s"))
 		if err != nil || v < 1 {
 			return "bad-op"
 		}
-		stopAt = v
+		if strings.HasPrefix(f[5], "s") {
+			slowStopAt = v
+		} else {
+			stopAt = v
+		}
 	}
-	if e1 != nil || limit < 0 || limit > 100 || (mode != "ntc" && mode != "ntn") {
+	usePipe := mode == "ntcp"
+	if usePipe {
+		mode = "ntc"
+	}
+	if e1 != nil || limit < 0 || limit > 100 || (mode != "ntc" && mode != "ntn") || (usePipe && f[5] != "-") {
 		return "bad-op"
 	}
 	events := f[6]
@@ -138,6 +162,12 @@ func runC21(op string) string {
 	if strings.Contains(events, "AA") || strings.HasSuffix(events, "A") {
 		return "bad-op"
 	}
+	nReplyEvents := strings.Count(events, "F") + strings.Count(events, "B")
+	if slowStopAt > 0 && slowStopAt != nReplyEvents {
+		return "bad-op"
+	}
+	// reply index -> kind, to know which block is directly followed by a roll-backward
+	kinds := []byte(strings.ReplaceAll(events, "A", ""))
 	blocks, err := g5Blocks()
 	if err != nil {
 		return "fixtures:" + err.Error()
@@ -162,6 +192,9 @@ func runC21(op string) string {
 	var mu sync.Mutex
 	cbs := []string{}
 	cbCh := make(chan struct{}, 1024)
+	enteredLast := make(chan struct{})    // slow stop: the last callback has been entered
+	releaseLast := make(chan struct{})    // slow stop: Stop() has been called, the callback may return
+	backSeen := make(chan struct{}, 1024) // a roll-backward callback ran
 	onCb := func(tok string) error {
 		if slow {
 			time.Sleep(50 * time.Microsecond)
@@ -171,10 +204,78 @@ func runC21(op string) string {
 		k := len(cbs)
 		mu.Unlock()
 		cbCh <- struct{}{}
+		if slowStopAt > 0 && k == slowStopAt {
+			close(enteredLast)
+			select {
+			case <-releaseLast:
+			case <-time.After(60 * time.Second):
+			}
+			return nil
+		}
 		if stopAt > 0 && k == stopAt {
 			return chainsync.ErrStopSyncProcess
 		}
 		return nil
+	}
+	// pipeline mode
+	var sentMu sync.Mutex
+	sentReplies := 0
+	sentCh := make(chan struct{}, 4096)
+	var pipe *pipeline.BlockPipeline
+	if usePipe {
+		holds := 0
+		pipe = pipeline.NewBlockPipeline(
+			pipeline.WithDecodeWorkers(2),
+			pipeline.WithValidateWorkers(0),
+			pipeline.WithSkipBodyHashValidation(true),
+			pipeline.WithApplyFunc(func(item *pipeline.BlockItem) error {
+				i := int(item.Tip().BlockNumber)
+				// hold the block that is directly followed by a roll-backward (first few per op)
+				if i+1 < len(kinds) && kinds[i+1] == 'B' && holds < 3 {
+					holds++
+					// until the server has sent that roll-backward …
+					dl := time.After(20 * time.Second)
+				waitSent:
+					for {
+						sentMu.Lock()
+						ok := sentReplies > i+1
+						sentMu.Unlock()
+						if ok {
+							break
+						}
+						select {
+						case <-sentCh:
+						case <-dl:
+							break waitSent
+						}
+					}
+					// … and either its callback has (wrongly) run already, or a grace period is over
+					select {
+					case <-backSeen:
+					case <-time.After(40 * time.Millisecond):
+					}
+				}
+				idx := -1
+				for j, b := range blocks {
+					if b.Type == item.BlockType() && len(b.Cbor) == len(item.RawCbor()) {
+						idx = j
+					}
+				}
+				return onCb(fmt.Sprintf("F%d@%d", idx, item.Tip().BlockNumber))
+			}),
+		)
+		if err := pipe.Start(context.Background()); err != nil {
+			return "pipeline-start:" + err.Error()
+		}
+		defer func() { _ = pipe.Stop() }()
+		go func() {
+			for range pipe.Results() {
+			}
+		}()
+		go func() {
+			for range pipe.Errors() {
+			}
+		}()
 	}
 	cfg := chainsync.NewConfig(
 		chainsync.WithPipelineLimit(limit),
@@ -199,9 +300,17 @@ func runC21(op string) string {
 			return onCb(fmt.Sprintf("F%d@%d", idx, tip.BlockNumber))
 		}),
 		chainsync.WithRollBackwardFunc(func(_ chainsync.CallbackContext, p pcommon.Point, tip chainsync.Tip) error {
-			return onCb(fmt.Sprintf("B%d@%d", p.Slot, tip.BlockNumber))
+			err := onCb(fmt.Sprintf("B%d@%d", p.Slot, tip.BlockNumber))
+			select {
+			case backSeen <- struct{}{}:
+			default:
+			}
+			return err
 		}),
 	)
+	if usePipe {
+		cfg.Pipeline = pipe
+	}
 	cli := chainsync.NewClient(l.opts(pmode), &cfg)
 	cli.Start()
 
@@ -288,7 +397,7 @@ func runC21(op string) string {
 	pos := 0 // index into events
 	evNo := 0
 	alive := true
-	deadline := time.Now().Add(15 * time.Second)
+	deadline := time.Now().Add(60 * time.Second)
 	for pos < len(events) && alive {
 		if lazy {
 			alive = drain(300 * time.Microsecond)
@@ -300,7 +409,7 @@ func runC21(op string) string {
 			// client has stopped asking (pacing: after a requested stop, once
 			// everything a stopped client can have asked for has been answered,
 			// there is nothing to wait for)
-			wait := 2 * time.Second
+			wait := 20 * time.Second
 			if stopAt > 0 {
 				stopTotal := 1
 				if stopAt > 1 {
@@ -363,9 +472,16 @@ func runC21(op string) string {
 			break
 		}
 		replies++
+		sentMu.Lock()
+		sentReplies = replies
+		sentMu.Unlock()
+		select {
+		case sentCh <- struct{}{}:
+		default:
+		}
 	}
 	// wait for the callbacks of everything that was sent
-	cbDeadline := time.After(5 * time.Second)
+	cbDeadline := time.After(30 * time.Second)
 waitCb:
 	for {
 		mu.Lock()
@@ -387,7 +503,7 @@ waitCb:
 	// protocol engine has put on the wire at that moment is timing dependent; the
 	// Lean driver checks the admissible range.)
 	target := replies + 1
-	if stopAt > 0 && stopAt <= replies {
+	if (stopAt > 0 && stopAt <= replies) || slowStopAt > 0 {
 		target = 0
 	}
 	settle := time.Now().Add(1500 * time.Millisecond)
@@ -414,9 +530,21 @@ waitCb:
 		mo = fmt.Sprintf("EXCEEDED:%d", maxOut)
 	}
 	stopStr := "-"
-	if stopAt > 0 {
+	if stopAt > 0 || slowStopAt > 0 {
 		stopRes := make(chan error, 1)
+		if slowStopAt > 0 {
+			select {
+			case <-enteredLast:
+			case <-time.After(20 * time.Second):
+			}
+		}
 		go func() { stopRes <- cli.Stop() }()
+		if slowStopAt > 0 {
+			// let Stop get as far as it can while the callback is still running, then let the
+			// callback return (the outcome does not depend on how far it got)
+			time.Sleep(20 * time.Millisecond)
+			close(releaseLast)
+		}
 		st := "HANG"
 		select {
 		case err := <-stopRes:
@@ -424,7 +552,7 @@ waitCb:
 			if err != nil {
 				st = "err"
 			}
-		case <-time.After(8 * time.Second):
+		case <-time.After(30 * time.Second):
 		}
 		drain(20 * time.Millisecond)
 		ec := "noerr"
